@@ -7,6 +7,7 @@ static int gen_profile_flags;
 #define GP_ONLY_WIRE      (1 << 2) /* only send/query kinds (one wire query per token) */
 #define GP_NO_WEIRD_TYPES (1 << 3)
 #define GP_NO_CANCEL_IN_CB (1 << 4) /* re-entrant ares_cancel confined to its own sub-workload */
+#define GP_SETSRV_IN_CB    (1 << 5) /* callbacks may replace the server list (own sub-workload: listed finding) */
 
 static void gen_srv_base(int n)
 {
@@ -328,6 +329,8 @@ static void gen_fill_token(app_tok_t *t, vh_rng_t *rng, int depth)
         t->action = RA_READONLY;
       } else if (p < 40) {
         t->action = RA_START_SAME;
+      } else if (p < 52 && (gen_profile_flags & GP_SETSRV_IN_CB)) {
+        t->action = RA_SETSERVERS;
       }
     } else if (depth < 3) {
       if (p < 6) {
